@@ -1,6 +1,8 @@
 package fold
 
 import (
+	"os"
+	"sync"
 	"fmt"
 	"go/constant"
 	"go/token"
@@ -160,6 +162,12 @@ func (m *Machine) abort(format string, a ...any) {
 
 // Choose forks on a named atom with n options; the answer is memoised for the
 // rest of the path.
+var (
+	dbgAtoms = os.Getenv("WSCHECK_DEBUG_ATOMS") != ""
+	dbgMu    sync.Mutex
+	dbgSeen  = map[string]bool{}
+)
+
 func (m *Machine) Choose(key string, n int) int {
 	if v, ok := m.atoms[key]; ok {
 		return v
@@ -174,6 +182,14 @@ func (m *Machine) Choose(key string, n int) int {
 	}
 	m.recorded = append(m.recorded, Choice{Key: key, Opt: opt, N: n})
 	m.atoms[key] = opt
+	if dbgAtoms {
+		dbgMu.Lock()
+		if !dbgSeen[key] {
+			dbgSeen[key] = true
+			fmt.Fprintln(os.Stderr, "ATOM", key)
+		}
+		dbgMu.Unlock()
+	}
 	return opt
 }
 
@@ -1204,14 +1220,24 @@ func (m *Machine) sub(a, b Int) Int {
 
 func (m *Machine) sliceConcrete(in *ssa.Slice, s SliceV, lo Int, hasLo bool, hi Int, hasHi bool, mx Int, hasMax bool) Val {
 	l, h, c := int64(0), s.Len, s.Cap
+	// a bound with a small range of values is enumerated: one path per value
+	// (the key is unique per evaluation, so two evaluations are never tied)
+	enum := func(v Int, what string) Int {
+		if v.IsConst() || v.Top || v.Hi-v.Lo > 128 || v.Hi-v.Lo < 0 {
+			return v
+		}
+		m.callSeq["slice-bound"]++
+		k := m.Choose(fmt.Sprintf("%s@%d#%d", what, in.Pos(), m.callSeq["slice-bound"]), int(v.Hi-v.Lo+1))
+		return K(v.Lo + int64(k))
+	}
 	if hasLo {
-		if !lo.IsConst() {
+		if lo = enum(lo, "slice-low"); !lo.IsConst() {
 			m.abort("slice low bound %s not constant", Show(lo))
 		}
 		l = lo.Lo
 	}
 	if hasHi {
-		if !hi.IsConst() {
+		if hi = enum(hi, "slice-high"); !hi.IsConst() {
 			m.abort("slice high bound %s not constant", Show(hi))
 		}
 		h = hi.Lo
